@@ -81,7 +81,10 @@ def run_case(spec):
         for _ in range(r):
             xs.append(acc)
             acc = ((((acc * k) & M64) ^ k) + 1) & M64 ^ 3
-        acc ^= (acc + 1) & M64
+        acc = ((acc * 0x9E3779B97F4A7C15) & M64) ^ ((acc + 1) & M64)
+    if len(set(xs)) != len(xs):
+        v.inconc('argument-values-not-distinct', str(xs))
+        return v.export()
     S = Session(hb, v, mon={'thr': False, 'dr': False, 'text': False, 'regs': False}, timeout=TMO)
     libsrc = os.path.basename(lb.src)
 
